@@ -35,7 +35,7 @@ def run_whip(ctx, path, var, dtype, limit, out, pool_src):
     ctx.pool_seq = 0
     ctx.reset_pools()
     try:
-        o = run_tool(ctx, cli.main, cwd=ctx.scratch, argv=argv, label=f"whip {argv[1:]}")
+        o = run_tool(ctx, cli.main, argv=argv, label=f"whip {argv[1:]}")
     finally:
         ctx.pool_src = None
     calls = []
@@ -52,9 +52,10 @@ def run_case(ctx):
     src = ctx.src
     common.draw_env(ctx)
     common.prelude(ctx)
-    m = world.gen_world(src, force_3d=True, special_ok=True)
-    path, _ = common.materialise(ctx, m)
+    m = world.gen_world(src, force_3d=True, special_ok=True, lowprec_ok=True)
     var = src.choice("var", m.fields)
+    path, hcwd, _abs, hmode = common.history_materialise(
+        ctx, m, lambda p: run_whip(ctx, p, var, "float64", None, os.path.join(ctx.scratch, "warm_ugrid"), Scripted({})))
     dtype = src.choice("dtype", ["float64", "float32"])
     limit = src.draw("limit.v", 0, m.nlev - 1) if src.flag("limit") else None
     L = m.nlev - 1 if limit is None else limit
